@@ -40,32 +40,28 @@ Theorem scroll_view_geometry :
       v_blank v = Z.max 0 (maxrow - c_rows ob) /\
       v_padr v = Z.max 0 (maxcol - c_cols ob) /\
       v_trimr v = Z.max 0 (c_cols ob - maxcol) /\
-      (fits ob maxcol maxrow = false -> trim_top st' = v_top v) /\
-      (fits ob maxcol maxrow = true -> st' = st).
+      trim_top st' = v_top v /\
+      action st' = ANone /\
+      rows_cached st' = rows_cached st /\
+      (fits ob maxcol maxrow = true -> st' = fit_state st ob).
 Proof. exact s_render_total. Qed.
 Print Assumptions scroll_view_geometry.
 
-(* --- scroll_reports_p, FULL statement: after every render the reported position (get_scrollpos = _trim_top)
-       is the p of the window shown and lies in range.  This is FALSE of the faithful model (and of the code). *)
-Definition scroll_reports_p_full : Prop :=
+(* --- scroll_reports_p: after EVERY render (content fitting or not) the reported position (get_scrollpos =
+       _trim_top) is the p of the window shown, lies in range, and no scroll action is left pending.
+       (Until fix: commit 886d649 this was refuted for content that fits the view: render returned before touching
+       _trim_top; regression inputs: corpus/C20/known_stale_pos.json, corpus/C20/repro_stale_scrollpos.py.) *)
+Theorem scroll_reports_p :
   forall st maxcol maxrow ob st' v,
     1 <= maxrow -> ob_ok ob -> s_render st maxcol maxrow ob = Ok (st', v) ->
-    trim_top st' = v_top v /\ 0 <= trim_top st' <= Z.max 0 (c_rows ob - maxrow).
+    trim_top st' = v_top v /\ 0 <= trim_top st' <= Z.max 0 (c_rows ob - maxrow) /\ action st' = ANone.
+Proof. exact s_render_reports. Qed.
+Print Assumptions scroll_reports_p.
 
-(* refuted: set_scrollpos(5), then render one line of content in a 4x3 view: rows 0.. are shown, 5 is reported
-   (Scrollable.render returns early when everything fits, before _adjust_trim_top).  Replayed on the
-   implementation: corpus/C20/known_stale_pos.json; recorded as known finding C20-stale-scrollpos-when-content-fits. *)
-Theorem scroll_reports_p_refuted :
-  exists st maxcol maxrow ob st' v,
-    1 <= maxrow /\ ob_ok ob /\ s_render st maxcol maxrow ob = Ok (st', v) /\
-    (trim_top st' <> v_top v \/ ~ (0 <= trim_top st' <= Z.max 0 (c_rows ob - maxrow))).
-Proof. exact reports_p_counterexample. Qed.
-Print Assumptions scroll_reports_p_refuted.
-
-(* what does hold (scroll_reports_p_partial): whenever the render has to trim - the content is higher or wider
-   than the view - the reported position is the p shown, it is in range, the pending action is consumed,
-   exactly [maxrow] rows of content are shown when there are that many *)
-Theorem scroll_reports_p_partial :
+(* the render that has to trim - the content is higher or wider than the view - in one statement: the reported
+   position is the p shown, it is in range, the pending action is consumed, exactly [maxrow] rows of content are
+   shown when there are that many *)
+Theorem scroll_render_when_trimming :
   forall st maxcol maxrow ob,
     1 <= maxrow -> ob_ok ob -> fits ob maxcol maxrow = false ->
     exists st' v,
@@ -79,7 +75,7 @@ Theorem scroll_reports_p_partial :
       v_padr v = Z.max 0 (maxcol - c_cols ob) /\
       v_trimr v = Z.max 0 (c_cols ob - maxcol).
 Proof. exact s_render_trims. Qed.
-Print Assumptions scroll_reports_p_partial.
+Print Assumptions scroll_render_when_trimming.
 
 (* --- histories: after ANY sequence of renders/resizes, keys, mouse events and set_scrollpos(any integer)
        (with any answers of the wrapped widget along the way) the next render is right.  [run_state] folds [step]. *)
@@ -93,7 +89,7 @@ Theorem scroll_after_any_history :
       0 <= v_top v <= Z.max 0 (c_rows (o_canvas ob) - maxrow) /\
       v_shown v = Z.min maxrow (c_rows (o_canvas ob) - v_top v) /\
       v_blank v = Z.max 0 (maxrow - c_rows (o_canvas ob)) /\
-      (fits (o_canvas ob) maxcol maxrow = false -> trim_top st' = v_top v).
+      trim_top st' = v_top v /\ action st' = ANone.
 Proof. exact history_then_render. Qed.
 Print Assumptions scroll_after_any_history.
 
@@ -278,6 +274,12 @@ Print Assumptions thumb_soft_float_agrees_with_primitive_floats.
 Example ex_bottom_relative :
   s_render (s_set_scrollpos sinit (-1)) 4 3 (CObs 4 10 None false)
   = Ok (SState 7 ANone false None 0, View 7 3 0 0 0 None).
+Proof. vm_compute. reflexivity. Qed.
+
+(* content that fits: a stale position (5) and a pending action are reset, keys go to a selectable child *)
+Example ex_fit_resets :
+  s_render (SState 5 ALineDown false None 0) 4 3 (CObs 4 1 None true)
+  = Ok (SState 0 ANone true None 0, View 0 1 2 0 0 None).
 Proof. vm_compute. reflexivity. Qed.
 
 (* page down from 2 in a 3-row view moves by 2; a huge position clamps to the end *)
